@@ -34,9 +34,9 @@ pub struct RustDocument {
     pub(crate) soap_services: Vec<SoapService>,
     /// components that are being converted ahead of their declaration (forward references); used to stop
     /// a component that refers to itself from being converted without end
-    pub(crate) resolving: Vec<(String, Wanted)>,
+    pub(crate) resolving: Vec<LookupKey>,
     /// components of the current file that were already converted ahead of their declaration
-    pub(crate) forward_nodes: HashMap<(String, Wanted), Rc<RustNode>>,
+    pub(crate) forward_nodes: HashMap<LookupKey, Rc<RustNode>>,
     /// components of the files that were read before this one in the same generation: they can be referred
     /// to, but they belong to (and are written with) the document that read them
     pub(crate) known_nodes: Vec<Rc<RustNode>>,
@@ -243,7 +243,7 @@ impl RustDocument {
         }
 
         // a forward reference: convert the component once, however often it is referred to before its declaration
-        let key = (xml_name.to_string(), wanted);
+        let key = lookup_key(xml_name, namespace, wanted);
         if let Some(known) = self.forward_nodes.get(&key) {
             #[cfg(feature = "verif")]
             verif_guard.hit("memo", known);
@@ -356,10 +356,17 @@ fn create_mod_name_for_namespace(abbreviation: &str) -> String {
     format!("mod_{abbreviation}")
 }
 
+/// What a forward reference is remembered under: name, namespace and kind of the component it denotes.
+pub(crate) type LookupKey = (String, Option<String>, Wanted);
+
+fn lookup_key(xml_name: &str, namespace: Option<&Namespace>, wanted: Wanted) -> LookupKey {
+    (xml_name.to_string(), namespace.map(|ns| ns.namespace.clone()), wanted)
+}
+
 fn try_to_find_node_by_xml_name_in_xml_doc<'n>(
     start_node: &'n Node<'n, 'n>,
     xml_name: &str,
-    _namespace: Option<&Namespace>,
+    namespace: Option<&Namespace>,
     doc: &mut RustDocument,
     wanted: Wanted,
 ) -> WriterResult<RustNode> {
@@ -381,7 +388,20 @@ fn try_to_find_node_by_xml_name_in_xml_doc<'n>(
 
                 // a component that (directly or through others) refers to itself: the reference only needs to
                 // know that the component exists, so do not convert it again
-                let key = (xml_name.to_string(), wanted);
+                // a file can hold several schemas (the inline schemas of a WSDL): a component of that name in another
+                // target namespace is another component
+                if let (Some(wanted_ns), Some(declared_ns)) = (
+                    namespace,
+                    node.ancestors()
+                        .find(|n| n.tag_name().name() == "schema")
+                        .and_then(|schema| schema.attribute("targetNamespace")),
+                ) {
+                    if wanted_ns.namespace != declared_ns {
+                        continue;
+                    }
+                }
+
+                let key = lookup_key(xml_name, namespace, wanted);
                 if doc.resolving.contains(&key) {
                     #[cfg(feature = "verif")]
                     crate::verif::placeholder(xml_name, matches!(wanted, Wanted::Type));
